@@ -40,6 +40,19 @@ FUNCS = [
 ]
 
 
+# Conditions of `if` statements translated WITH the undefined behaviour of C made explicit
+# (result type `option bool`, None = an operation whose behaviour C leaves undefined was executed):
+# (gallina name, C function, source file, which top-level `if` of the function body (0 = first))
+#   * a shift of an int (32 bits) by a negative count or by >= 32 is None; `1 << c` style left shifts
+#     must also keep the result representable;  && and || short-circuit (the right operand is not
+#     executed when the left one decides);  sizeof(<int expression>) = 4;  casts between integer types
+#     are the identity;  + - * are not range-checked (ranges are hypotheses of the linking lemmas);
+#   * p->f becomes the parameter p_f, parameters are ordered like the C parameters.
+CONDS = [
+    ("timer_growth_test", "iv_timer_get_node", "iv_timer.c", 0),
+]
+
+
 class Unsupported(Exception):
     pass
 
@@ -419,6 +432,153 @@ class Tr:
         return text, order, list(self.outfields), cparams
 
 
+COND_PRELUDE = (
+    "(* ---- conditions translated with explicit undefined behaviour (None) ---- *)\n"
+    "Definition ub_bind {A B : Type} (x : option A) (f : A -> option B) : option B :=\n"
+    "  match x with Some a => f a | None => None end.\n"
+    "Definition ub_and (a b : option bool) : option bool :=\n"
+    "  match a with Some true => b | Some false => Some false | None => None end.\n"
+    "Definition ub_or (a b : option bool) : option bool :=\n"
+    "  match a with Some true => Some true | Some false => b | None => None end.\n"
+    "Definition ub_shr32 (x c : Z) : option Z :=\n"
+    "  if (0 <=? c) && (c <? 32) then Some (Z.shiftr x c) else None.\n"
+    "Definition ub_shl32 (x c : Z) : option Z :=\n"
+    "  if (0 <=? c) && (c <? 32) && (0 <=? x) && (Z.shiftl x c <? 2 ^ 31) then Some (Z.shiftl x c) else None.\n\n")
+
+INT_SIZES = {"char": 1, "signed char": 1, "unsigned char": 1, "short": 2, "unsigned short": 2,
+             "int": 4, "unsigned int": 4, "long": 8, "unsigned long": 8}
+
+
+class CondTr:
+    """condition of an if statement -> Gallina term of type option bool (see CONDS)"""
+
+    def __init__(self, cparams):
+        self.cparams = cparams
+        self.params = []
+        self.fresh = 0
+
+    def strip(self, n):
+        while n.get("kind") in ("ImplicitCastExpr", "ParenExpr", "ConstantExpr"):
+            n = n["inner"][0]
+        return n
+
+    def param(self, name):
+        if name not in self.params:
+            self.params.append(name)
+        return name
+
+    def var(self):
+        self.fresh += 1
+        return "v%d" % self.fresh
+
+    def qual(self, n):
+        return n.get("type", {}).get("qualType", "")
+
+    # pure Z-valued expressions (no operation with undefined behaviour inside): plain Gallina, else None
+    def pure(self, n):
+        n = self.strip(n)
+        k = n["kind"]
+        if k == "IntegerLiteral":
+            return n["value"]
+        if k == "DeclRefExpr":
+            nm = n["referencedDecl"]["name"]
+            if nm not in self.cparams:
+                raise Unsupported("condition reads %s, which is not a parameter" % nm)
+            return self.param(nm)
+        if k == "MemberExpr":
+            base = self.strip(n["inner"][0])
+            if base["kind"] != "DeclRefExpr" or base["referencedDecl"]["name"] not in self.cparams:
+                raise Unsupported("member access on a non-parameter in a condition")
+            return self.param("%s_%s" % (base["referencedDecl"]["name"], n["name"]))
+        if k == "UnaryExprOrTypeTraitExpr" and n.get("name") == "sizeof":
+            ty = n["argType"]["qualType"] if "argType" in n else self.qual(self.strip(n["inner"][0]))
+            if ty not in INT_SIZES:
+                raise Unsupported("sizeof(%s)" % ty)
+            return str(INT_SIZES[ty])
+        if k == "CStyleCastExpr":
+            if self.qual(n) not in INT_SIZES:
+                raise Unsupported("cast to %s in a condition" % self.qual(n))
+            return self.pure(n["inner"][0])
+        if k == "UnaryOperator" and n["opcode"] in ("-", "+"):
+            a = self.pure(n["inner"][0])
+            return None if a is None else ("(- %s)" % a if n["opcode"] == "-" else a)
+        if k == "BinaryOperator" and n["opcode"] in ("+", "-", "*"):
+            a, b = self.pure(n["inner"][0]), self.pure(n["inner"][1])
+            if a is None or b is None:
+                return None
+            return "(%s %s %s)" % (a, n["opcode"], b)
+        if k == "BinaryOperator" and n["opcode"] in ("<<", ">>", "/", "%"):
+            return None
+        raise Unsupported("expression %s%s in a condition" % (k, " " + n.get("opcode", "") if "opcode" in n else ""))
+
+    # option Z
+    def uz(self, n):
+        p = self.pure(n)
+        if p is not None:
+            return "(Some %s)" % p
+        n = self.strip(n)
+        k = n["kind"]
+        if k == "CStyleCastExpr":
+            return self.uz(n["inner"][0])
+        if k == "BinaryOperator":
+            op = n["opcode"]
+            a, b = n["inner"]
+            if op in ("<<", ">>"):
+                if self.qual(n) != "int":
+                    raise Unsupported("shift of a %s" % self.qual(n))
+                f = "ub_shr32" if op == ">>" else "ub_shl32"
+                pa, pb = self.pure(a), self.pure(b)
+                if pa is not None and pb is not None:
+                    return "(%s %s %s)" % (f, pa, pb)
+                x, y = self.var(), self.var()
+                return "(ub_bind %s (fun %s => ub_bind %s (fun %s => %s %s %s)))" % (self.uz(a), x, self.uz(b), y, f, x, y)
+            if op in ("+", "-", "*"):
+                x, y = self.var(), self.var()
+                return "(ub_bind %s (fun %s => ub_bind %s (fun %s => Some (%s %s %s))))" % (self.uz(a), x, self.uz(b), y, x, op, y)
+        raise Unsupported("expression %s in a condition (undefined-behaviour aware translation)" % k)
+
+    # option bool
+    def ub(self, n):
+        n = self.strip(n)
+        k = n["kind"]
+        if k == "UnaryOperator" and n["opcode"] == "!":
+            x = self.var()
+            return "(ub_bind %s (fun %s => Some (negb %s)))" % (self.ub(n["inner"][0]), x, x)
+        if k == "BinaryOperator":
+            op = n["opcode"]
+            a, b = n["inner"]
+            if op == "&&":
+                return "(ub_and %s %s)" % (self.ub(a), self.ub(b))
+            if op == "||":
+                return "(ub_or %s %s)" % (self.ub(a), self.ub(b))
+            m = {"<": "%s <? %s", "<=": "%s <=? %s", ">": "%s >? %s", ">=": "%s >=? %s", "==": "%s =? %s",
+                 "!=": "negb (%s =? %s)"}
+            if op in m:
+                pa, pb = self.pure(a), self.pure(b)
+                if pa is not None and pb is not None:
+                    return "(Some (%s))" % (m[op] % (pa, pb))
+                x, y = self.var(), self.var()
+                return "(ub_bind %s (fun %s => ub_bind %s (fun %s => Some (%s))))" % (self.uz(a), x, self.uz(b), y, m[op] % (x, y))
+        x = self.var()
+        return "(ub_bind %s (fun %s => Some (negb (%s =? 0))))" % (self.uz(n), x, x)
+
+
+def translate_cond(gname, decl, which):
+    body = [c for c in decl["inner"] if c["kind"] == "CompoundStmt"][0]
+    ifs = [c for c in body.get("inner", []) if c["kind"] == "IfStmt"]
+    if len(ifs) <= which:
+        raise Unsupported("%s: no top-level if statement number %d" % (gname, which))
+    cparams = [c["name"] for c in decl["inner"] if c["kind"] == "ParmVarDecl"]
+    tr = CondTr(cparams)
+    term = tr.ub(ifs[which]["inner"][0])
+    order = []
+    for cp in cparams:
+        for p in tr.params:
+            if (p == cp or p.startswith(cp + "_")) and p not in order:
+                order.append(p)
+    return "Definition %s %s : option bool :=\n  %s.\n" % (gname, " ".join("(%s : Z)" % p for p in order), term)
+
+
 def main(out_path=None):
     out_path = out_path or os.path.join(VERIF, "coq", "theories", "Gen", "Leaf.v")
     inc = os.path.join(VERIF, "build", "gen_inc.%d" % os.getpid())
@@ -446,6 +606,21 @@ def main(out_path=None):
             known[fn + "#cparams"] = cparams
             parts.append("(* %s() of src/%s%s *)\n" % (fn, cfile, (" assuming " + ", ".join("%s = %s" % kv for kv in assume.items())) if assume else ""))
             parts.append(text + "\n")
+        cparts = ["(* LeafTimer.v -- GENERATED by gen/c2gallina.py (CONDS) from the current C source of /repo/src.  Do not edit.\n"
+                  "   Conditions of if statements with the undefined behaviour of C explicit: the result is an option bool,\n"
+                  "   None = an operation that C leaves undefined (shift of an int by a negative count or by >= 32) was executed;\n"
+                  "   && and || short-circuit; sizeof(int expression) = 4; + - * are not range-checked. *)\n"
+                  "From Coq Require Import ZArith Bool.\nLocal Open Scope Z_scope.\n\n", COND_PRELUDE]
+        for gname, fn, cfile, which in CONDS:
+            decl = ast_of(cfile, fn, inc)
+            cparts.append("(* condition of if statement #%d of %s() of src/%s *)\n" % (which, fn, cfile))
+            cparts.append(translate_cond(gname, decl, which) + "\n")
+        cond_path = os.path.join(os.path.dirname(out_path), "LeafTimer.v")
+        cnew = "".join(cparts)
+        cold = open(cond_path).read() if os.path.exists(cond_path) else None
+        if cnew != cold:
+            os.makedirs(os.path.dirname(cond_path), exist_ok=True)
+            open(cond_path, "w").write(cnew)
         new = "".join(parts)
         old = open(out_path).read() if os.path.exists(out_path) else None
         if new != old:
